@@ -504,8 +504,9 @@ def decide_sim(pid, tier, sd):
             return {"build_ok": False, "log": b.stdout[-2000:]}
         runs = []
         with Lock("sim-port-6060"):   # the example serves pprof on localhost:6060: one instance at a time
-            for cfg in (["-count", "4", "-watchers", "1"], ["-count", "1", "-watchers", "0"]) + ((["-count", "7", "-watchers", "2"],) if tier != "quick" else ()):
-                p = sh("timeout %d %s %s -duration %ds 2>&1 | grep -a 'approving block\\|panic\\|bind' | head -2000" % (dur + 20, binp, " ".join(cfg), dur), check=False, timeout=dur + 60)
+            for cfg in (["-count", "4", "-watchers", "1"], ["-count", "1", "-watchers", "0"], ["-count", "4", "-watchers", "1", "-blocked", "2"]) + ((["-count", "7", "-watchers", "2"], ["-count", "7", "-watchers", "0", "-blocked", "1"]) if tier != "quick" else ()):
+                rdur = dur if "-blocked" not in cfg else max(dur, 27)   # with a validator cut off every N-th height needs a view change
+                p = sh("timeout %d %s %s -duration %ds 2>&1 | grep -a 'approving block\\|panic\\|bind' | head -2000" % (rdur + 20, binp, " ".join(cfg), rdur), check=False, timeout=rdur + 60)
                 heights = {}
                 hashes = {}
                 for line in p.stdout.split("\n"):
@@ -514,7 +515,7 @@ def decide_sim(pid, tier, sd):
                         i, hh, hs = int(m.group(1)), int(m.group(2)), m.group(3)
                         heights[i] = max(heights.get(i, 0), hh)
                         hashes.setdefault(hh, set()).add(hs)
-                runs.append({"cfg": " ".join(cfg), "duration_s": dur, "heights": heights, "forks": [h_ for h_, v in hashes.items() if len(v) > 1],
+                runs.append({"cfg": " ".join(cfg), "duration_s": rdur, "heights": heights, "forks": [h_ for h_, v in hashes.items() if len(v) > 1],
                              "other": [l[:200] for l in p.stdout.split("\n") if "panic" in l or "bind" in l][:3], "lines": len(p.stdout.split("\n"))})
         os.remove(binp)
         return {"build_ok": True, "runs": runs}
@@ -525,6 +526,14 @@ def decide_sim(pid, tier, sd):
     want = dur // 5 - 1 + 1   # blocks at about 0 s, 5 s, 10 s ...: at least floor(T/5) of them, one spared for start-up
     for run in r["runs"]:
         nvals = int(run["cfg"].split()[1])
+        if "-blocked" in run["cfg"]:
+            # one validator cut off: the heights it should lead need a view change, so fewer blocks - but every validator keeps up
+            got = [run["heights"].get(str(i), run["heights"].get(i, 0)) for i in range(nvals)]
+            if max(got) < 3 or min(got) < max(got) - 1:
+                hits.append({"sig": "chain-not-extended/blocked-validator", "desc": "simulation %s for %d s: validators reached heights %s (every validator should keep extending the chain, at most one block apart)" % (run["cfg"], run["duration_s"], got)})
+            if run["forks"]:
+                hits.append({"sig": "different-blocks", "desc": "simulation %s: different blocks approved at heights %s" % (run["cfg"], run["forks"])})
+            continue
         for i in range(nvals):
             got = run["heights"].get(str(i), run["heights"].get(i, 0))
             if got < want:
